@@ -978,7 +978,7 @@ func c07Recover(c *Ctx) {
 		// typeFacts: the types T for which `val.(T)` is known to hold / not to hold at block blk
 		typeFacts := func(blk *ssa.BasicBlock, val ssa.Value, pol bool) map[string]bool {
 			out := map[string]bool{}
-			for _, fc := range flow.FactsAt(blk) {
+			for _, fc := range withPhiWays(flow.FactsAt(blk)) {
 				ex, ok := fc.Cond.(*ssa.Extract)
 				if !ok || ex.Index != 1 || fc.True != pol {
 					continue
@@ -2253,7 +2253,23 @@ func c07ExecContract(c *Ctx) {
 		}
 		n++
 		base := flow.FactsAt(b)
-		allNonNil := func(v ssa.Value) bool {
+		var allNonNilAt func(v ssa.Value, base []flow.Fact, depth int) bool
+		allNonNilAt = func(v ssa.Value, base []flow.Fact, depth int) bool {
+			// a local kept in a memory cell (a field of a local record): what the stores that can still be seen as
+			// nil at this load put there
+			if depth < 4 {
+				if defs, zero, isCell := nilReachingCellDefs(v); isCell {
+					if zero {
+						return false
+					}
+					for _, d := range defs {
+						if !allNonNilAt(d.v, flow.FactsAt(d.b), depth+1) {
+							return false
+						}
+					}
+					return true
+				}
+			}
 			srcs := sourcesWithFactsAt(v, scope, base)
 			if len(srcs) == 0 {
 				return false
@@ -2265,10 +2281,145 @@ func c07ExecContract(c *Ctx) {
 			}
 			return true
 		}
+		allNonNil := func(v ssa.Value) bool { return allNonNilAt(v, base, 0) }
 		ok2 := allNonNil(ret.Results[0]) || allNonNil(ret.Results[1])
 		c.R.Check(ok2, "C07-R1", fmt.Sprintf("FuncAction.Exec: return #%d gives an execution or an error", n), c.pos(ret), "the execution is never nil there, or the error never is", "FuncAction.Exec can return no execution and no error (a native action or guard that returns nil, nil): Step and Branch.try read the execution whenever the error is nil, and the host panics")
 	}
 	if n == 0 {
 		c.R.Break("C07-R1: FuncAction.Exec has no return")
 	}
+}
+
+// nilReachingCellDefs is reachingCellDefs for the question "can this load see nil": v is a load of a private memory
+// cell (a local variable, or a field of a local record, that is only read and written in place); returned are the
+// stores whose value the load can see on a way that passes no other store into the cell and takes no branch edge on
+// which the cell is known not to be nil (`if run.exe == nil { run.exe = NewExecution(nil) }`: the value that was there
+// before is seen afterwards only when it was not nil).  zero: the load can see the cell as it was allocated.
+func nilReachingCellDefs(v ssa.Value) (defs []cellDef, zero bool, ok bool) {
+	all, _, ok := privateCellDefs(v)
+	if !ok {
+		return nil, false, false
+	}
+	ld := v.(*ssa.UnOp)
+	var al *ssa.Alloc
+	field := -1
+	switch a := ld.X.(type) {
+	case *ssa.Alloc:
+		al = a
+	case *ssa.FieldAddr:
+		al, _ = a.X.(*ssa.Alloc)
+		field = a.Field
+	}
+	if al == nil {
+		return nil, false, false
+	}
+	isStore := map[ssa.Instruction]bool{}
+	for _, d := range all {
+		isStore[d.store] = true
+	}
+	sameCell := func(x ssa.Value) bool {
+		u, isU := x.(*ssa.UnOp)
+		if !isU || u.Op != token.MUL {
+			return false
+		}
+		switch a := u.X.(type) {
+		case *ssa.Alloc:
+			return field < 0 && a == al
+		case *ssa.FieldAddr:
+			return field >= 0 && a.X == ssa.Value(al) && a.Field == field
+		}
+		return false
+	}
+	// knownNonNil: on the edge from b to its successor #i the cell is known not to hold nil
+	knownNonNil := func(b *ssa.BasicBlock, i int) bool {
+		if len(b.Instrs) == 0 || len(b.Succs) != 2 || b.Succs[0] == b.Succs[1] {
+			return false
+		}
+		iff, isIf := b.Instrs[len(b.Instrs)-1].(*ssa.If)
+		if !isIf {
+			return false
+		}
+		bo, isB := iff.Cond.(*ssa.BinOp)
+		if !isB || (bo.Op != token.EQL && bo.Op != token.NEQ) {
+			return false
+		}
+		var x ssa.Value
+		switch {
+		case ssau.IsNilConst(bo.Y):
+			x = bo.X
+		case ssau.IsNilConst(bo.X):
+			x = bo.Y
+		}
+		if x == nil || !sameCell(x) || x.(*ssa.UnOp).Block() != b {
+			return false
+		}
+		after := false
+		for _, in := range b.Instrs {
+			if in == ssa.Instruction(x.(*ssa.UnOp)) {
+				after = true
+				continue
+			}
+			if after && isStore[in] {
+				return false
+			}
+		}
+		return (i == 0) == (bo.Op == token.NEQ)
+	}
+	reach := func(from ssa.Instruction) bool {
+		b := from.Block()
+		past := false
+		for _, in := range b.Instrs {
+			if in == from {
+				past = true
+				continue
+			}
+			if !past {
+				continue
+			}
+			if in == ssa.Instruction(ld) {
+				return true
+			}
+			if isStore[in] {
+				return false
+			}
+		}
+		seen := map[*ssa.BasicBlock]bool{}
+		var stack []*ssa.BasicBlock
+		leave := func(x *ssa.BasicBlock) {
+			for i, s := range x.Succs {
+				if !knownNonNil(x, i) {
+					stack = append(stack, s)
+				}
+			}
+		}
+		leave(b)
+		for len(stack) > 0 {
+			x := stack[len(stack)-1]
+			stack = stack[:len(stack)-1]
+			if seen[x] {
+				continue
+			}
+			seen[x] = true
+			killed := false
+			for _, in := range x.Instrs {
+				if in == ssa.Instruction(ld) {
+					return true
+				}
+				if isStore[in] {
+					killed = true
+					break
+				}
+			}
+			if !killed {
+				leave(x)
+			}
+		}
+		return false
+	}
+	for _, d := range all {
+		if reach(d.store) {
+			defs = append(defs, d)
+		}
+	}
+	return defs, reach(al), true
 }
